@@ -355,7 +355,7 @@ func (s *ScriptIface) VarlinkDispatch(ctx context.Context, c varlink.Call, metho
 			err = c.ReplyInvalidParameter(ctx, op.S)
 		case "yield":
 			runtime.Gosched()
-		case "sleep", "read", "readbytes", "write":
+		case "sleep", "read", "readbytes", "write", "readall":
 			if !s.AllowIO {
 				break
 			}
@@ -392,6 +392,19 @@ func (s *ScriptIface) doIO(ctx context.Context, c *varlink.Call, op Op) (res OpR
 		res.Data = b
 	case "write":
 		_, err = c.Conn.Write(ctx, op.Data)
+	case "readall":
+		buf := make([]byte, 4096)
+		for {
+			n, rerr := c.Conn.Read(ctx, buf)
+			res.Data = append(res.Data, buf[:n]...)
+			if rerr != nil {
+				break // EOF ends the drain; it is not the handler's failure
+			}
+			if n == 0 {
+				err = fmt.Errorf("Read returned 0 bytes and no error")
+				break
+			}
+		}
 	}
 	return res, err
 }
